@@ -587,7 +587,8 @@ def _digitize(x, bins, right=False):
 
 
 def _histogram(a, bins=10, range=None, density=None, weights=None):
-    if density or weights is not None or range is not None or _np.ndim(bins) == 0:
+    rng_arg, range = range, __builtins__['range'] if isinstance(__builtins__, dict) else __builtins__.range
+    if density or weights is not None or rng_arg is not None or _np.ndim(bins) == 0:
         raise Inconclusive('histogram variant not modelled')
     b = _bins_concrete(bins)
     xs = _np.asarray(S(a)).ravel().tolist()
